@@ -92,6 +92,16 @@ CHECKS = {
              "rounding.",
         note="Windows within 1e-9(1+|t|) of the threshold or 1e-9 of a bin edge are ignored and counted; for negative scores the table "
              "entry of either the truncated or the floored bin is accepted. Thread counts up to 4 (quick) / 16 (thorough)."),
+    "C13": dict(
+        technique="property-based testing (Hypothesis): metamorphic comparison across generated schedules (thread count, chunk size, query permutation / duplication / subset) against a one-query-one-thread baseline",
+        category="exploration", design_ref="DESIGN.md §3 C13",
+        text="Every query is first processed alone with one thread; generated schedules (n_jobs, numba parallel chunk size, permuted / "
+             "duplicated / subset query lists incl. long-before-short orders that reuse per-thread scratch buffers) must reproduce those "
+             "results bit-for-bit per query. n_nearest must return exactly the n smallest p-values of the full row in ascending order with "
+             "distinct indices and the fields of those targets, and annotate_seqlets must agree with tomtom on the extracted seqlets and "
+             "not depend on seqlet order.",
+        note="The harness owns thread count, chunk size and query order but not the interleaving: a true data race is caught only "
+             "statistically (thorough tier repeats multi-thread schedules). Thread counts up to 4 (quick) / 16 (thorough)."),
     "C14": dict(
         technique="property-based testing (Hypothesis): differential against an independent numpy complete-score / convolution-null reference fed with the integerised similarity matrix, plus monotonicity and metamorphic relations",
         category="exploration", design_ref="DESIGN.md §3 C14",
